@@ -1,12 +1,12 @@
 #!/usr/bin/env python3
 """tools/seed_import.py <PROP> <k> "<breaks>" "<needs>" [checks,comma,separated]
-copies /tmp/seed/<PROP>/_seed/{patch,demo,notes,verify}<k>.* into /verif/seeded/<PROP>-s<k>/ with meta.json"""
+copies $SEED_ROOT(/tmp/seed)/<PROP>/_seed/{patch,demo,notes,verify}<k>.* into /verif/seeded/<PROP>-$SEED_TAG(s)<k>/ with meta.json"""
 import os, json, shutil, sys
 prop, k, what, needs = sys.argv[1:5]
 checks = sys.argv[5].split(",") if len(sys.argv) > 5 else [prop]
-sid = f"{prop}-s{k}"
+sid = f"{prop}-{os.environ.get('SEED_TAG', 's')}{k}"
 d = f"/verif/seeded/{sid}"; os.makedirs(d, exist_ok=True)
-src = f"/tmp/seed/{prop}/_seed"
+src = f"{os.environ.get('SEED_ROOT', '/tmp/seed')}/{prop}/_seed"
 shutil.copy(f"{src}/patch{k}.diff", d + "/patch.diff")
 for ext in ("rs", "sh"):
     if os.path.exists(f"{src}/demo{k}.{ext}"):
